@@ -17,6 +17,13 @@ ENGINES = [
      "kind_free_text": "TLA+ model of the mutable Expression tree (node store, every branch of set/append/replace/pop, hash cache, deepcopy); TLC exhaustive + transition emission; AstTrace.tla evaluates the invariants on recorded real trees"},
 ]
 CHECKS = {
+    "C09": {
+        "engine": "Ast",
+        "design_ref": "DESIGN.md section 5, C09",
+        "technique": "TLA+ call-frame model over the Ast node store (Frame.tla: FrameOK action property, Disjoint, in-place negative control) checked by TLC; TLC-generated API histories executed on real trees, argument snapshots before/after each call validated by a TLA+ acceptor",
+        "text": "Model level: inside a copying frame no node of the argument changes and the copy is disjoint, for all frames over all stores within the bound; copy=False breaks it. Conformance: all length-3 histories over 14 documented-to-copy APIs (sql into rotating dialects, pretty/identify, transform, every builder applicable to the tree, optimize, qualify/annotate/normalize on a copy, expand, replace_tables, replace_placeholders, four diff variants, lineage, edit-a-copy) are run on corpus and dialect-probe trees; for every call TLC compares the full argument snapshot (object identities, args, back pointers, types, comments, meta, identities of comment lists/meta dicts) before and after, the text, and that returned trees share no object with the argument.",
+        "note": "Trusted: the snapshot function. Cached hashes are excluded from the frame (C08 covers them). diff/lineage results legitimately reference input nodes, so the sharing clause applies to tree-returning APIs only.",
+    },
     "C12": {
         "engine": "Serde",
         "design_ref": "DESIGN.md section 5, C12",
